@@ -1,6 +1,8 @@
 #!/usr/bin/env python3
-"""Writes /verif/MANIFEST.json from the table below (kept in one place so the
-manifest stays valid while checks are added)."""
+"""Writes /verif/MANIFEST.json from the per-property entries manifest.d/CXX.json
+(keys: text, design, technique, note, optional prefix), so that the manifest
+stays valid while checks are added.  Properties without an entry are listed
+under not_applicable with the reason in NOT_YET (or manifest.d/CXX.na.txt)."""
 import json
 from pathlib import Path
 
@@ -11,66 +13,19 @@ COMMON_NOTE = ("Trusted: Coq 8.16.1 kernel + vm_compute (no native_compute); std
                "(ClassicalDedekindReals.sig_forall_dec, sig_not_dec, functional_extensionality_dep) where "
                "theorems are over R, as listed by Print Assumptions in the evidence; hand-written Gallina "
                "model tied to the code by (a) constants regenerated from the working tree into "
-               "coq/Gen/Consts.v and (b) a sampled correspondence check evaluated inside Coq; gcc rebuild "
+               "coq/Gen/*.v and (b) a sampled correspondence check evaluated inside Coq; gcc rebuild "
                "of the kernels with the pre-generated Cython wrapper C; harness generators and oracles. "
                "Floating-point accuracy clauses are tested, not proved. ")
 
-CHECKS = {
-    "C17": dict(
-        text=("Theorems for every AR order 1..MAX, every series length and every NaN placement: the "
-              "simulation kernel is the textbook recursion, residual(sim(e)) = e and sim(residual(y)) = y "
-              "over the reals, missing innovations = zero innovations (any arithmetic instance), missing "
-              "input => zero residual, rejections, accepted orders fit the C stack buffers (size "
-              "re-extracted from the source). The model (generic over the arithmetic) is run in binary64 "
-              "inside Coq against the rebuilt kernels through the public API, bit-exact, on ~900 cases; an "
-              "independent numerical oracle checks the recursion and inverse laws on the implementation."),
-        design="5/C17",
-        technique="Coq proof (induction over the series, refinement of the lag buffer to an unbounded history) + in-Coq binary64 correspondence",
-        note="Default sim_mean of armodel_residual (numpy.nanmean) is glue computed by the harness."),
-    "C19": dict(
-        text=("Theorems for ALL 1 <= nbatch <= nelements: the concatenation of the batches in order is exactly "
-              "0..n-1 (hence contiguous, ordered, disjoint, covering), sizes differ by at most one, rejected "
-              "calls, SiteBatch.search returns the batch holding the site (any duplicate-free site list); the "
-              "cartesian product enumerates every combination exactly once (NoDup, length, membership); "
-              "find returns exactly the tasks whose option equals the value; from_dict(to_dict m) = m for "
-              "any admissible key renaming and __eq__ holds in both directions. Model evaluated inside Coq "
-              "against hyruns.py on ~6000 cases (all (n,k,i) with n<=26 exhaustively), exact comparison."),
-        design="5/C19",
-        technique="Coq proof (Z arithmetic with lia/nia, list induction) + in-Coq exact correspondence",
-        note="numpy.array_split section sizes and re.search on metacharacter-free strings are modelled assumptions validated by the correspondence; json round trip is library code."),
-    "C07": dict(
-        text=("Theorems over the reals for every grid shape, origin and positive cell size: cell2coord is the "
-              "centre of the cell numbered row by row from the top-left; every point of a cell's (closed-open) "
-              "footprint maps to it; coord2cell(cell2coord c) = c; every point outside the extent on any side "
-              "maps to -1 (refuted for the pinned kernel's truncation - fixed in /repo by a fix: commit); "
-              "cell2rowcol inverts row*ncols+col; neighbours are symmetric with mirrored slots k<->8-k, "
-              "off-grid -1; invalid cell numbers flagged. The same generic model runs in binary64 inside Coq "
-              "against the rebuilt kernels (exact), integer operations exhaustively on all shapes up to 5x5; "
-              "an exact rational oracle decides the float clauses (1e-9 margin) on the implementation."),
-        design="5/C07",
-        technique="Coq proof over R (floor lemmas, lia/nra) + in-Coq binary64 correspondence + exact rational oracle",
-        note="Out-of-range double->long long casts are modelled by their x86-64 result (-1 after the range test)."),
-    "C06": dict(
-        text=("Theorems on EVERY grid (any shape, any cell contents): upstream and downstream are inverse "
-              "relations (using distinctness of the eight direction codes re-extracted from grid.py and the "
-              "mirrored-slot law), sinks -2 / unknown codes -1 / invalid cells error; the delineated area is "
-              "exactly the outlet plus every cell whose downstream chain reaches the outlet without passing "
-              "through an inlet (soundness + completeness by induction over breadth-first layers), empty when "
-              "nothing drains to it, duplicate-free when the outlet is not on a cycle; on any grid (cycles "
-              "included) the loop ends within its fuel (never a hang); flow-path lengths equal the length of "
-              "the downstream chain (1 / sqrt 2 per step), 0 for the outlet; river traces are the downstream "
-              "chain with cumulative distances. Correspondence: exhaustive over all grids of <= 3 cells x "
-              "outlets x inlet subsets plus random grids to 8x8 (~86000 cases), exact, inside Coq; brute-force "
-              "reachability oracle with an independent ESRI table."),
-        design="5/C06",
-        technique="Coq proof (layer induction, reachability characterisation, fuel bound) + in-Coq exhaustive/sampled correspondence + brute-force graph oracle",
-        note="Hole filling (scipy binary_fill_holes) is not modelled: containment tested. The area model is at layer granularity (buffer-exhaustion errors derived from lengths), validated including error cases."),
-}
-
-NOT_YET = "check not built yet in this session; planned with the same technique (DESIGN.md section 5/8)"
+NOT_YET = "check not built yet; planned with the same technique (DESIGN.md section 5/8)"
 
 
 def main():
+    CHECKS = {}
+    for pid in ALL:
+        p = VERIF / "manifest.d" / f"{pid}.json"
+        if p.exists():
+            CHECKS[pid] = json.loads(p.read_text())
     checks = []
     for pid in ALL:
         if pid not in CHECKS:
@@ -88,6 +43,12 @@ def main():
             "level_note": c.get("prefix", "") + COMMON_NOTE + c["note"],
             "technique": c["technique"],
         })
+    na = []
+    for p in ALL:
+        if p in CHECKS:
+            continue
+        r = VERIF / "manifest.d" / f"{p}.na.txt"
+        na.append({"property_id": p, "reason": r.read_text().strip() if r.exists() else NOT_YET})
     man = {
         "version": 1,
         "setup_cmd": "./setup.sh",
@@ -107,8 +68,8 @@ def main():
                               "failing input with independent oracles",
         }],
         "checks": checks,
-        "notes": "See DESIGN.md. known_findings.json lists recorded findings and fixed defects.",
-        "not_applicable": [{"property_id": p, "reason": NOT_YET} for p in ALL if p not in CHECKS],
+        "notes": "See DESIGN.md. known_findings.json / known_findings.d list recorded findings and fixed defects.",
+        "not_applicable": na,
     }
     (VERIF / "MANIFEST.json").write_text(json.dumps(man, indent=1) + "\n")
 
